@@ -4,15 +4,19 @@
  * size-function lines (same protocol as ml/C20_driver.ml):
  *   pw c w s | ph c h s | bs w a h s | ps c w stride h s
  *   pwr c s lo hi | phr c s lo hi | bsr s a h wlo whi | psr s c stride h wlo whi
- *   sc dim num denom | tbl
+ *   sc dim num denom | tbl | gs yh yv bh bv rh rv
  * behavioural lines (property-level oracles, results judged by checks/C20.py):
  *   layenc w a h s  o0 s0 pw0 ph0  o1 s1 pw1 ph1  o2 s2 pw2 ph2  total
  *        tj3EncodeYUV8 of a solid colour into a canary-filled buffer; every byte must be
  *        either a plane sample at the expected place or an untouched canary.
  *   errs fn w a h s     unified function fn (0 CompressFromYUV8, 1 EncodeYUV8, 3 DecodeYUV8) with
  *        out-of-range geometry: must fail cleanly (prints rc).
- *   cmp seed w h s q sfi a pf ex0 ex1 ex2 flags
- *        composition clauses on a random JPEG (see do_compose).
+ *   cmp seed w h s q sfi a pf ex0 ex1 ex2 flags [fam script]
+ *        composition clauses on a random JPEG (see do_compose).  Without fam: source = tj3Compress8 output.
+ *        With fam/script: source built through the libjpeg API with the sampling factors FAM[fam] (standard,
+ *        non-standard but denoting level s by ratio, or denoting no level) and scan script `script`
+ *        (0 sequential, 1 DC only, 2 DC only Al=1, 3 DC + coarse Y AC, 4 partial bands per component,
+ *        5 all sent but final Al=1, 6 random incomplete script with refinements, 7 jpeg_simple_progression).
  */
 #include <stdio.h>
 #include <stdlib.h>
@@ -114,6 +118,104 @@ static int raw_decode(const unsigned char *jpg, size_t n, int num, int denom, in
   return 0;
 }
 
+
+/* ---------------------------------------------------------------- sources built through the libjpeg API */
+/* sampling-factor families: TJSAMP level they denote by ratio (-1: not recognised by the TurboJPEG API), Y hxv, Cb hxv, Cr hxv */
+static const struct { int level, yh, yv, bh, bv, rh, rv; } FAM[] = {
+  { TJSAMP_444, 1, 1, 1, 1, 1, 1 }, { TJSAMP_422, 2, 1, 1, 1, 1, 1 }, { TJSAMP_420, 2, 2, 1, 1, 1, 1 }, { TJSAMP_GRAY, 1, 1, 0, 0, 0, 0 },
+  { TJSAMP_440, 1, 2, 1, 1, 1, 1 }, { TJSAMP_411, 4, 1, 1, 1, 1, 1 }, { TJSAMP_441, 1, 4, 1, 1, 1, 1 },
+  { TJSAMP_422, 2, 2, 1, 2, 1, 2 },   /* 7: 4:2:2 written as 2x2,1x2,1x2 */
+  { TJSAMP_440, 2, 2, 2, 1, 2, 1 },   /* 8: 4:4:0 written as 2x2,2x1,2x1 */
+  { TJSAMP_444, 2, 1, 2, 1, 2, 1 }, { TJSAMP_444, 1, 2, 1, 2, 1, 2 }, { TJSAMP_444, 3, 1, 3, 1, 3, 1 }, { TJSAMP_444, 1, 3, 1, 3, 1, 3 },
+  { -1, 4, 2, 1, 2, 1, 2 },           /* 13: 4:1:1 ratio, not recognised */
+  { -1, 4, 2, 2, 1, 2, 1 },           /* 14: 4:2:0 ratio, not recognised */
+  { -1, 2, 2, 2, 2, 2, 2 },           /* 15: 4:4:4 ratio with 4 blocks per component, not recognised */
+  { -1, 2, 1, 1, 1, 2, 1 },           /* 16: Cb and Cr differ */
+  { -1, 2, 2, 1, 2, 1, 1 }            /* 17 */
+};
+#define NFAM ((int)(sizeof(FAM) / sizeof(FAM[0])))
+static jpeg_scan_info g_scans[64]; static int g_nscans = 0;   /* scan script of the current custom source (0: sequential) */
+
+static void add_scan(int ncomp, int c0, int Ss, int Se, int Ah, int Al)
+{
+  jpeg_scan_info *sc = &g_scans[g_nscans++]; int k;
+  memset(sc, 0, sizeof(*sc));
+  sc->comps_in_scan = ncomp;
+  for (k = 0; k < ncomp; k++) sc->component_index[k] = c0 + k;
+  sc->Ss = Ss; sc->Se = Se; sc->Ah = Ah; sc->Al = Al;
+}
+/* progressive scan scripts; most of them leave coefficients unsent or at reduced precision */
+static void make_script(int script, int nc, int interleave_ok)
+{
+  int c, dcal;
+  g_nscans = 0;
+  if (script == 0) {                                         /* sequential; one scan per component when an MCU would be too big */
+    if (!interleave_ok) for (c = 0; c < nc; c++) add_scan(1, c, 0, 63, 0, 0);
+    return;
+  }
+  dcal = (script == 2 || script == 5) ? 1 : (script == 6 ? (int)(rnd() % 3) : 0);
+  if (interleave_ok && !(script == 6 && (rnd() & 1))) add_scan(nc, 0, 0, 0, 0, dcal);
+  else for (c = 0; c < nc; c++) add_scan(1, c, 0, 0, 0, dcal);
+  switch (script) {
+  case 1: case 2: break;                                     /* DC only (2: never refined, final Al = 1) */
+  case 3: add_scan(1, 0, 1, 63, 0, 2); break;                /* coarse Y AC, no chroma AC */
+  case 4: add_scan(1, 0, 1, 5, 0, 0); if (nc > 1) add_scan(1, 1, 1, 2, 0, 1); break;   /* partial bands, per component */
+  case 5:                                                    /* DC refined, every AC sent but final Al = 1 */
+    if (interleave_ok) add_scan(nc, 0, 0, 0, 1, 0); else for (c = 0; c < nc; c++) add_scan(1, c, 0, 0, 1, 0);
+    for (c = 0; c < nc; c++) add_scan(1, c, 1, 63, 0, 1);
+    break;
+  case 6:                                                    /* random */
+    if (dcal > 0 && (rnd() & 1)) {
+      int a;
+      for (a = dcal; a > 0; a--) { if (interleave_ok) add_scan(nc, 0, 0, 0, a, a - 1); else for (c = 0; c < nc; c++) add_scan(1, c, 0, 0, a, a - 1); if (rnd() % 3 == 0) break; }
+    }
+    for (c = 0; c < nc; c++) {
+      int ss = 1;
+      while (ss <= 63 && g_nscans < 50) {
+        int se = ss + (int)(rnd() % 12), al = (int)(rnd() % 3), send = (rnd() % 4) != 0;
+        if (se > 63 || rnd() % 5 == 0) se = 63;
+        if (send) { add_scan(1, c, ss, se, 0, al); if (al > 0 && (rnd() & 1)) add_scan(1, c, ss, se, al, al - 1); }
+        ss = se + 1;
+        if (rnd() % 4 == 0) break;                           /* the rest of this component is never sent */
+      }
+    }
+    break;
+  default: break;
+  }
+}
+
+static int build_custom(const unsigned char *rgb, int w, int h, int fam, int script, int q, unsigned char **jpegBuf, size_t *jpegSize)
+{
+  struct jpeg_compress_struct c; struct my_err e; unsigned long len = 0; int y, nc = FAM[fam].level == TJSAMP_GRAY ? 1 : 3, blocks;
+  *jpegBuf = NULL;
+  c.err = jpeg_std_error(&e.pub); e.pub.error_exit = my_exit; e.pub.emit_message = my_emit;
+  jpeg_create_compress(&c);
+  if (setjmp(e.jb)) { jpeg_destroy_compress(&c); free(*jpegBuf); *jpegBuf = NULL; return -1; }
+  jpeg_mem_dest(&c, jpegBuf, &len);
+  c.image_width = w; c.image_height = h; c.input_components = 3; c.in_color_space = JCS_RGB;
+  jpeg_set_defaults(&c);
+  jpeg_set_colorspace(&c, nc == 1 ? JCS_GRAYSCALE : JCS_YCbCr);
+  jpeg_set_quality(&c, q, TRUE);
+  c.comp_info[0].h_samp_factor = FAM[fam].yh; c.comp_info[0].v_samp_factor = FAM[fam].yv;
+  if (nc == 3) {
+    c.comp_info[1].h_samp_factor = FAM[fam].bh; c.comp_info[1].v_samp_factor = FAM[fam].bv;
+    c.comp_info[2].h_samp_factor = FAM[fam].rh; c.comp_info[2].v_samp_factor = FAM[fam].rv;
+  }
+  blocks = FAM[fam].yh * FAM[fam].yv + (nc == 3 ? FAM[fam].bh * FAM[fam].bv + FAM[fam].rh * FAM[fam].rv : 0);
+  if (script == 7 && blocks > C_MAX_BLOCKS_IN_MCU) script = 5;
+  if (script == 7) { jpeg_simple_progression(&c); g_nscans = 0; }
+  else {
+    make_script(script, nc, blocks <= C_MAX_BLOCKS_IN_MCU);
+    if (g_nscans) { c.scan_info = g_scans; c.num_scans = g_nscans; }
+  }
+  jpeg_start_compress(&c, TRUE);
+  for (y = 0; y < h; y++) { JSAMPROW r = (JSAMPROW)(rgb + (size_t)y * w * 3); jpeg_write_scanlines(&c, &r, 1); }
+  jpeg_finish_compress(&c);
+  jpeg_destroy_compress(&c);
+  *jpegSize = len;
+  return 0;
+}
+
 /* component ci of a JPEG re-wrapped, coefficient for coefficient, as a single-component
  * (grayscale) JPEG: an independent reference for "this component alone, scaled by the IDCT". */
 static int extract_component(const unsigned char *jpg, size_t n, int ci, unsigned char **outbuf, unsigned long *outlen)
@@ -139,6 +241,17 @@ static int extract_component(const unsigned char *jpg, size_t n, int ci, unsigne
   c.quant_tbl_ptrs[0]->sent_table = FALSE;
   c.comp_info[0].quant_tbl_no = 0;
   c.optimize_coding = TRUE;
+  if (g_nscans) {
+    /* keep this component's share of the source's scan script: the same coefficients stay unsent / coarse, so the
+       decoder takes the same block-smoothing decisions as for the original */
+    static jpeg_scan_info proj[64]; int k, j, np = 0;
+    for (k = 0; k < g_nscans; k++)
+      for (j = 0; j < g_scans[k].comps_in_scan; j++)
+        if (g_scans[k].component_index[j] == ci) {
+          proj[np] = g_scans[k]; proj[np].comps_in_scan = 1; proj[np].component_index[0] = 0; np++;
+        }
+    c.scan_info = proj; c.num_scans = np;
+  }
   jpeg_write_coefficients(&c, &coefs[ci]);
   jpeg_finish_compress(&c);
   jpeg_destroy_compress(&c);
@@ -170,7 +283,7 @@ static void gen_image(unsigned char *rgb, int w, int h, int ps, int pitch, int k
 
 static void do_compose(char *p)
 {
-  unsigned long long seed; int w, h, s, q, sfi, a, pf, ex[3], flags;
+  unsigned long long seed; int w, h, s, q, sfi, a, pf, ex[3], flags, fam = -1, script = 0, nargs;
   int failed = 0; char why[512] = ""; char info[512] = "";
   tjhandle hc = NULL, hd = NULL, hd2 = NULL; unsigned char *jpg = NULL; size_t jsz = 0;
   unsigned char *rgb = NULL; int nsf = 0; tjscalingfactor *sfs, sf;
@@ -183,9 +296,11 @@ static void do_compose(char *p)
   int decode_cmp = 0, raw_chroma_via_gray = 0;
 
   memset(&raw, 0, sizeof(raw));
-  if (sscanf(p, "%llu %d %d %d %d %d %d %d %d %d %d %d", &seed, &w, &h, &s, &q, &sfi, &a, &pf, &ex[0], &ex[1], &ex[2], &flags) != 12) {
-    printf("cmp badline\n"); return;
-  }
+  nargs = sscanf(p, "%llu %d %d %d %d %d %d %d %d %d %d %d %d %d", &seed, &w, &h, &s, &q, &sfi, &a, &pf, &ex[0], &ex[1], &ex[2], &flags, &fam, &script);
+  if (nargs != 12 && nargs != 14) { printf("cmp badline\n"); return; }
+  if (nargs == 12) fam = -1;
+  if (fam >= NFAM) { printf("cmp badfam\n"); return; }
+  g_nscans = 0;
   rs = seed;
   prog = flags & 1; fastdct = (flags >> 1) & 1; fastups = (flags >> 2) & 1; kind = (flags >> 3) % 3;
   nc = (s == TJSAMP_GRAY) ? 1 : 3;
@@ -198,7 +313,25 @@ static void do_compose(char *p)
   gen_image(rgb, w, h, 3, w * 3, kind);
   hc = tj3Init(TJINIT_COMPRESS); hd = tj3Init(TJINIT_DECOMPRESS); hd2 = tj3Init(TJINIT_DECOMPRESS);
   tj3Set(hc, TJPARAM_SUBSAMP, s); tj3Set(hc, TJPARAM_QUALITY, q); tj3Set(hc, TJPARAM_PROGRESSIVE, prog);
-  if (tj3Compress8(hc, rgb, w, 0, h, TJPF_RGB, &jpg, &jsz) < 0) { printf("cmp compress-failed %s\n", tj3GetErrorStr(hc)); goto done; }
+  if (fam < 0) {
+    if (tj3Compress8(hc, rgb, w, 0, h, TJPF_RGB, &jpg, &jsz) < 0) { printf("cmp compress-failed %s\n", tj3GetErrorStr(hc)); goto done; }
+  } else {
+    if (build_custom(rgb, w, h, fam, script, q, &jpg, &jsz) < 0) { printf("cmp custom-source-failed fam=%d script=%d\n", fam, script); goto done; }
+    if (FAM[fam].level < 0) {
+      /* sampling factors that denote no TJSAMP level: the planar functions must refuse, touching nothing */
+      cbuf X = cb_new(4096); size_t k; int rc1, rc2, bad = 0; unsigned char *pl[3]; int zs[3] = { 0, 0, 0 };
+      tj3DecompressHeader(hd, jpg, jsz);
+      pl[0] = X.p; pl[1] = X.p + 1024; pl[2] = X.p + 2048;
+      rc1 = tj3DecompressToYUV8(hd, jpg, jsz, X.p, a);
+      rc2 = tj3DecompressToYUVPlanes8(hd, jpg, jsz, pl, zs);
+      for (k = 0; k < 4096; k++) if (!cb_untouched(&X, k)) bad = 1;
+      if (tj3Get(hd, TJPARAM_SUBSAMP) != TJSAMP_UNKNOWN) printf("cmp FAIL unmapped sampling factors reported as level %d ; fam=%d\n", tj3Get(hd, TJPARAM_SUBSAMP), fam);
+      else if (rc1 != -1 || rc2 != -1 || bad || !cb_guards_ok(&X)) printf("cmp FAIL unmapped sampling factors not refused cleanly: rc=%d,%d written=%d ; fam=%d\n", rc1, rc2, bad, fam);
+      else printf("cmp ok unmapped fam=%d\n", fam);
+      cb_free(&X);
+      goto done;
+    }
+  }
 
   /* ---- geometry from the API ---- */
   if (tj3DecompressHeader(hd, jpg, jsz) < 0) { FAILF("header: %s", tj3GetErrorStr(hd)); goto report; }
@@ -350,7 +483,7 @@ static void do_compose(char *p)
   }
 
 report:
-  if (failed) printf("cmp FAIL %s ; %s fastdct=%d prog=%d sf=%d/%d\n", why, info, fastdct, prog, sf.num, sf.denom);
+  if (failed) printf("cmp FAIL %s ; %s fastdct=%d prog=%d sf=%d/%d fam=%d script=%d\n", why, info, fastdct, prog, sf.num, sf.denom, fam, script);
   else printf("cmp ok %s dec=%d gray=%d\n", info, decode_cmp, raw_chroma_via_gray);
 done:
   raw_free(&raw);
@@ -413,6 +546,37 @@ static void do_errs(char *p)
   tj3Free(jb); tj3Destroy(hh);
 }
 
+
+/* gs yh yv bh bv rh rv: level reported by the TurboJPEG API for a YCbCr JPEG with these sampling factors */
+static void do_gs(char *p)
+{
+  int f[6], k, maxv = 1, blocks; struct jpeg_compress_struct c; struct my_err e; unsigned char *jb = NULL; unsigned long len = 0;
+  static JSAMPLE zero[512]; static JSAMPROW rows[64]; JSAMPARRAY data[3]; tjhandle hd;
+  if (sscanf(p, "%d %d %d %d %d %d", &f[0], &f[1], &f[2], &f[3], &f[4], &f[5]) != 6) { printf("gs badline\n"); return; }
+  for (k = 0; k < 64; k++) rows[k] = zero;
+  c.err = jpeg_std_error(&e.pub); e.pub.error_exit = my_exit; e.pub.emit_message = my_emit;
+  jpeg_create_compress(&c);
+  if (setjmp(e.jb)) { jpeg_destroy_compress(&c); free(jb); printf("gs nobuild\n"); return; }
+  jpeg_mem_dest(&c, &jb, &len);
+  c.image_width = 8; c.image_height = 8; c.input_components = 3; c.in_color_space = JCS_YCbCr;
+  jpeg_set_defaults(&c);
+  c.raw_data_in = TRUE;
+  for (k = 0; k < 3; k++) { c.comp_info[k].h_samp_factor = f[2 * k]; c.comp_info[k].v_samp_factor = f[2 * k + 1]; if (f[2 * k + 1] > maxv) maxv = f[2 * k + 1]; }
+  blocks = f[0] * f[1] + f[2] * f[3] + f[4] * f[5];
+  g_nscans = 0;
+  if (blocks > C_MAX_BLOCKS_IN_MCU) { for (k = 0; k < 3; k++) add_scan(1, k, 0, 63, 0, 0); c.scan_info = g_scans; c.num_scans = g_nscans; }
+  jpeg_start_compress(&c, TRUE);
+  for (k = 0; k < 3; k++) data[k] = rows;
+  while (c.next_scanline < c.image_height) jpeg_write_raw_data(&c, data, maxv * DCTSIZE);
+  jpeg_finish_compress(&c);
+  jpeg_destroy_compress(&c);
+  g_nscans = 0;
+  hd = tj3Init(TJINIT_DECOMPRESS);
+  if (tj3DecompressHeader(hd, jb, len) < 0) printf("gs header-error\n");
+  else printf("gs %d\n", tj3Get(hd, TJPARAM_SUBSAMP));
+  tj3Destroy(hd); free(jb);
+}
+
 int main(void)
 {
   setvbuf(stdout, NULL, _IOLBF, 0);
@@ -423,6 +587,7 @@ int main(void)
     if (!strcmp(cmd, "cmp")) { do_compose(p); continue; }
     if (!strcmp(cmd, "layenc")) { do_layenc(p); continue; }
     if (!strcmp(cmd, "errs")) { do_errs(p); continue; }
+    if (!strcmp(cmd, "gs")) { do_gs(p); continue; }
     { char *q = p; while (n < 8) { char *e; long x = strtol(q, &e, 10); if (e == q) break; v[n++] = x; q = e; } }
     if (!strcmp(cmd, "pw") && n == 3) printf("pw %d\n", tj3YUVPlaneWidth((int)v[0], (int)v[1], (int)v[2]));
     else if (!strcmp(cmd, "ph") && n == 3) printf("ph %d\n", tj3YUVPlaneHeight((int)v[0], (int)v[1], (int)v[2]));
